@@ -225,6 +225,38 @@ def run_converge(args):
                        'monotone': False, 'tol': 200, 'verdicts': {'normalised': bool(abs(np.linalg.norm(v1) - 1) <= 1e-9),
                                                                     'orthogonal_to_penalised_state_when_converged': bool((not conv1) or ov <= 1e-5),
                                                                     'targets_next_level_when_converged': bool((not conv1) or E1 >= evals[1] - 1e-6)}})
+            # third level with a MIXED project list: one (penalty, state) tuple and one bare state (default penalty 100), in either order; the tuple's penalty
+            # separates the level it belongs to (p > E2 - E1) but would not be enough for the ground state (p < E2 - E0)
+            if conv1 and ov <= 1e-6 and len(evals) >= 3 and abs(E1 - evals[1]) < 1e-7 and evals[2] - evals[1] > 1e-2 and gap > 1e-2 and evals[2] - evals[0] < 90:
+                pmid = float(evals[2] - evals[1]) + 0.5 * gap
+                psi2 = mps.random_mps(I, n=sector, D_total=3, dtype='complex128' if cplx else 'float64')
+                order = rng.choice(('tuple-first', 'bare-first'))
+                proj = [(pmid, psi1), psi] if order == 'tuple-first' else [psi, (pmid, psi1)]
+                out2 = mps.dmrg_(psi2, H, project=proj, **opts)
+                _, v2 = dense_full(psi2, legs)
+                E2 = float(np.real(np.vdot(v2, Hd @ v2)))
+                conv2 = out2.denergy is not None and out2.denergy < 1e-11 and out2.max_discarded_weight is not None and out2.max_discarded_weight <= 1e-12
+                ev.append({'op': 'dmrg_sweep', 'what': what + ' mixed penalty list %s p=%.3f' % (order, pmid), 'E': int(round(E2 * SC)), 'Edense': int(round(E2 * SC)), 'E0': int(round(float(evals[0]) * SC)),
+                           'Eprev': 0, 'monotone': False, 'tol': 200,
+                           'verdicts': {'normalised': bool(abs(np.linalg.norm(v2) - 1) <= 1e-9),
+                                        'orthogonal_to_every_listed_state_when_converged': bool((not conv2) or max(abs(np.vdot(v0, v2)), abs(np.vdot(v1, v2))) <= 1e-5),
+                                        'targets_third_level_when_converged': bool((not conv2) or E2 >= evals[2] - 1e-6)}})
+        # stopping rule: iterator mode with one or both tolerances; which criteria each performed sweep satisfied
+        psi3 = mps.random_mps(I, n=sector, D_total=1 if rng.random() < 0.5 else 2, dtype='complex128' if cplx else 'float64')
+        et = rng.choice((None, 1e-2, 1e-4, 1e-8))
+        stl = rng.choice((None, 1e-3, 1e-6, 1e-9)) if et is not None else rng.choice((1e-3, 1e-6, 1e-9))
+        ms = rng.choice((3, 6, 12))
+        sat, last = [], None
+        for o3 in mps.dmrg_(psi3, H, method=rng.choice(('1site', '2site')), max_sweeps=ms, energy_tol=et, Schmidt_tol=stl, iterator=True,
+                            opts_svd={'D_total': 64, 'tol': 1e-14}, opts_eigs={'hermitian': True, 'ncv': 6, 'which': 'SR'}):
+            sat.append(([bool(abs(o3.denergy) < et)] if et is not None else []) + ([bool(o3.max_dSchmidt < stl)] if stl is not None else []))
+            last = o3
+        _, v3 = dense_full(psi3, legs)
+        E3 = float(np.real(np.vdot(v3, Hd @ v3)))
+        resid3 = float(np.linalg.norm(Hd @ v3 - E3 * v3))
+        strict = len(sat) < ms and stl is not None and stl <= 1e-9 and (et is None or et <= 1e-8) and last.max_discarded_weight <= 1e-12
+        ev.append({'op': 'dmrg_stop', 'what': what + ' stopping rule energy_tol=%s Schmidt_tol=%s max_sweeps=%d performed=%d' % (et, stl, ms, len(sat)), 'sat': sat, 'max_sweeps': ms,
+                   'verdicts': {'sweeps_reported': bool(last.sweeps == len(sat)), 'converged_at_full_D_is_eigenstate': bool((not strict) or resid3 <= 1e-3 * max(1.0, abs(E3)))}})
     except YastnError as ex:
         return None
     return ev
@@ -270,7 +302,11 @@ def main(tier, seed, replay=None):
             if e['op'] == 'tdvp_snapshot':
                 e['ti'] = e['ti_expected'] + 1
                 return True
-        rep.cov['parts']['negative_controls_rejected'] = negative_controls('TraceEnv', 'TraceEnv.cfg', traces, [('refresh after a site write dropped', c_stale), ('two schedule events swapped', c_sched),
+        def c_stop(e):
+            if e['op'] == 'dmrg_stop' and len(e['sat']) < e['max_sweeps'] and len(e['sat'][-1]) == 2:
+                e['sat'][-1][1] = False        # stopped early although one of the two given criteria was not met
+                return True
+        rep.cov['parts']['negative_controls_rejected'] = negative_controls('TraceEnv', 'TraceEnv.cfg', traces, [('refresh after a site write dropped', c_stale), ('two schedule events swapped', c_sched), ('stopped on one of two criteria', c_stop),
                                                                                                                  ('energy below E0', c_energy), ('snapshot start time off', c_time)], timeout=900)
     for t, rj in zip(traces, validate_traces.last_rejects):
         for l, why in rj:
@@ -282,10 +318,13 @@ def main(tier, seed, replay=None):
     rep.cov['transitions'] += sum(x.generated for x in res)
     rep.cov['traces_validated_against_impl'] = sum(1 for e in evs if e['op'] in ('coherence', 'schedule'))
     rep.cov['evaluations'] = len(evs)
-    rep.cov['distinct_nontrivial'] = sum(1 for e in evs if e['op'] == 'dmrg_sweep') + sum(1 for e in evs if e['op'] == 'coherence' and any(x[0].startswith('heff') for x in e['events']))
+    rep.cov['distinct_nontrivial'] = sum(1 for e in evs if e['op'] in ('dmrg_sweep', 'dmrg_stop')) + sum(1 for e in evs if e['op'] == 'coherence' and any(x[0].startswith('heff') for x in e['events']))
     rep.cov['parts'].update({'dmrg_sweeps': sum(1 for e in evs if e['op'] == 'dmrg_sweep'), 'coherence_traces': sum(1 for e in evs if e['op'] == 'coherence'),
                              'cache_events': sum(len(e['events']) for e in evs if e['op'] == 'coherence'), 'schedule_comparisons': sum(1 for e in evs if e['op'] == 'schedule'),
-                             'monotone_claims': sum(1 for e in evs if e['op'] == 'dmrg_sweep' and e['monotone'])})
+                             'monotone_claims': sum(1 for e in evs if e['op'] == 'dmrg_sweep' and e['monotone']),
+                             'stopping_rule_runs': sum(1 for e in evs if e['op'] == 'dmrg_stop'), 'stopped_early': sum(1 for e in evs if e['op'] == 'dmrg_stop' and len(e['sat']) < e['max_sweeps']),
+                             'stopped_early_with_both_tolerances': sum(1 for e in evs if e['op'] == 'dmrg_stop' and len(e['sat']) < e['max_sweeps'] and len(e['sat'][-1]) == 2),
+                             'penalty_runs': sum(1 for e in evs if e['op'] == 'dmrg_sweep' and 'penalty run' in e['what']), 'mixed_penalty_list_runs': sum(1 for e in evs if e['op'] == 'dmrg_sweep' and 'mixed penalty' in e['what'])})
     s = next((e for e in evs if e['op'] == 'dmrg_sweep'), None)
     rep.sample(s)
     c = next((e for e in evs if e['op'] == 'coherence'), None)
